@@ -341,7 +341,10 @@ def model_args(c, mask):
         planes = np.vectorize(_rat, otypes=[object])(flat).tolist()
     else:
         planes = flat.astype(np.int64).tolist()
+    # plane_sort_index as highdicom derives it for these sources: decreasing position along the slice normal
+    order = sorted(range(c['planes']), key=lambda k: -c['src_order'][k])
     return {'kind': 'float' if isfloat else 'int', 'four': m.ndim == 4, 'planes': planes, 'rows': c['rows'], 'cols': c['cols'],
+            'order': order,
             'type': c['type'], 'segs': c['segs'], 'mfv': c['mfv'], 'omit': c['omit'],
             'bits': (1 if c['type'] == 'BINARY' else 8 if c['type'] == 'FRACTIONAL' else (8 if max(c['segs']) < 256 else 16)),
             'native': c['ts'] in NATIVE}
@@ -446,8 +449,9 @@ def run_case(ctx, c, reqs, pending, paths=('memory', 'eager', 'lazy')):
                                 'shape_want': list(want.shape), 'first_diffs': bad}, site=f'read/{path}')
             if path == 'memory' and oname == 'supplied':
                 reqs.append(('roundtrip', dict(margs, request=order, allow_missing=True)))
-                pending.append((case, 'read', ('ok', want.reshape(len(order), n, -1).tolist()),
-                                got.astype(np.int64).reshape(len(order), n, -1).tolist() if got.shape == want.shape else None))
+                pending.append((case, 'read', None,
+                                got.astype(np.int64).transpose(0, 3, 1, 2).reshape(len(order), -1, n).tolist()
+                                if got.shape == want.shape else None))
             # default read (rescaled fractions)
             if frac and oname == 'supplied':
                 try:
